@@ -506,13 +506,22 @@ class Sandbox:
             else:
                 return self._context[self._context_group_start[-1]:]
         else:
+            # Executions are found by their id, not by their place in the list:
+            # `clear_context` empties the list while the ids keep counting
+            ids = [context.context_id for context in self._context]
+            if context_id not in ids:
+                # Its record has been cleared away
+                return []
+            position = ids.index(context_id)
             if not self._context_group_start:
-                return [self._context[context_id]]
+                return [self._context[position]]
             else:
                 for past_context_group_starts in self._context_group_start[::-1]:
                     if past_context_group_starts < context_id + 1:
-                        return self._context[past_context_group_starts:context_id + 1]
-                return self._context[:context_id + 1]
+                        start = next(index for index, an_id in enumerate(ids)
+                                     if an_id >= past_context_group_starts)
+                        return self._context[start:position + 1]
+                return self._context[:position + 1]
 
     def _guess_context(self, target_name):
         """
